@@ -45,7 +45,7 @@ def run(ck):
     np.seterr(all="ignore")
     rng = ck.rng
     thorough = ck.tier == "thorough"
-    N = 160 if thorough else 36
+    N = ck.n(36, 160)
 
     rec = []
     orig_hk, orig_cy = pm._solve_hk, pm._solve_hk_cy
